@@ -30,7 +30,7 @@ STUB_COMPONENTS = ["leaf processors (svsim.lib)", "RecordingExecutor", "SimClock
 ASSUMPTIONS = ["volatile fields are exactly: run_id (header and identity.run_id), timestamp, timing.started_at, "
                "timing.finished_at, timing.wall_ms, timing.cpu_ms, seq - nothing else is removed before comparing"]
 REQUIRED_PROBES = ["reused_pipeline_second_traced_run", "reused_pipeline_with_sweep", "failing_subject", "history_contains_other_config",
-                   "result_object_fed_back", "other_process_other_hashseed", "cli_launch_repeated_with_same_launch_id"]
+                   "result_object_fed_back", "other_process_other_hashseed", "cli_launch_repeated_with_same_launch_id", "concurrent_first_traced_runs_in_fresh_interpreter"]
 CONFIG = {
     "quick": {"runs": 2000, "budget_s": 240, "timeout_s": 120},
     "thorough": {"runs": 60000, "budget_s": 1500, "timeout_s": 120},
@@ -74,7 +74,11 @@ def generate(rng: random.Random, tier: str, seed: int) -> dict:
     hs = rng.choice([1, 2, 3, 5, 7]) if (rng.random() < 0.12 or (fail and fail[0].startswith("unresolvable"))) else None
     cli_pair = rng.choice([None, None, None, ["--run-space-launch-id", "L-1"], ["--run-space-idempotency-key", "K-1"],
                            ["--run-space-launch-id", "L-1", "--run-space-attempt", "2"]])
-    return {"A": subject, "B": dict(b, faults=[]), "ops": ops, "fail": fail, "A_truth": a.get("truth"), "remote_exec": rng.random() < 0.25,
+    from .. import threads as _th
+    # 8 %: the FIRST traced runs of a fresh interpreter happen concurrently on two caller threads (config-borne failures only)
+    concurrent = {"sched_seed": rng.getrandbits(48), "strategy": rng.choice(_th.STRATEGIES)} \
+        if (rng.random() < 0.08 and not subject.get("faults")) else None
+    return {"concurrent": concurrent, "A": subject, "B": dict(b, faults=[]), "ops": ops, "fail": fail, "A_truth": a.get("truth"), "remote_exec": rng.random() < 0.25,
             "hashseed": hs, "cli_pair": cli_pair}
 
 
@@ -150,6 +154,71 @@ def _child_main() -> int:
         w.close()
     print("RESULT " + json.dumps(out, default=repr))
     return 0
+
+
+CONC_TARGETS = ("semantiva/trace/_utils.py", "semantiva/trace/drivers/jsonl.py", "semantiva/trace/delta_collector.py",
+                "semantiva/execution/orchestrator/orchestrator.py", "semantiva/trace/model.py")
+
+
+def _child_concurrent() -> int:
+    """Fresh interpreter (nothing traced yet, every lazily initialised piece of module state cold): two caller threads each
+    run configuration A on its own Pipeline object with its own trace driver, interleaved by the seeded scheduler at line
+    granularity of the trace/orchestrator modules; then a third, sequential run. Prints the three normalised traces."""
+    harness.setup_process()
+    from .. import threads
+    req = json.loads(sys.stdin.read())
+    sc, seed, detail, conc = req["sc"], req["seed"], req["detail"], req["conc"]
+    w = SimWorld(seed ^ 0xC0C, lane="c10conc")
+    w.quiet = True                      # nothing is recorded per invocation: the world's bookkeeping is not thread-aware
+    try:
+        from semantiva import Pipeline
+        # module IMPORT is not part of the scenario (a thread pre-empted inside a module's top-level code would hold the
+        # interpreter's import lock): every traced module is imported before the threads start; nothing is called
+        import importlib
+        for m in ("semantiva.trace._utils", "semantiva.trace.drivers.jsonl", "semantiva.trace.delta_collector",
+                  "semantiva.execution.orchestrator.orchestrator", "semantiva.trace.model"):
+            importlib.import_module(m)
+        sched = threads.Scheduler(conc["sched_seed"], targets=CONC_TARGETS, strategy=dict(conc["strategy"], est_steps=4000), max_steps=2_000_000)
+        outcomes: dict = {}
+
+        def runner(tag):
+            def run():
+                p = Pipeline(copy.deepcopy(sc["A"]["nodes"]), logger=harness.quiet_logger(), trace=harness.make_trace("file", detail, tag))
+                oc = harness.outcome_of(lambda: p.process(harness.make_payload(sc["A"])))
+                outcomes[tag] = {k: v for k, v in oc.items() if k in ("ok", "data", "context", "exc_type", "exc_msg")}
+            return run
+
+        with threads.Installed(sched, []):
+            sched.spawn("t1", runner("conc_t1"))
+            sched.spawn("t2", runner("conc_t2"))
+            outcome = sched.run(wall_timeout=100.0)
+        errs = [f"{n}: {type(e).__name__}: {e}" for n, e in sched.task_errors]
+        runner("conc_seq")()
+        traces = {}
+        for tag in ("conc_t1", "conc_t2", "conc_seq"):
+            recs = []
+            path = os.path.join(w.sandbox, f"{tag}.ser.jsonl")
+            if os.path.exists(path):
+                with open(path) as f:
+                    recs = [json.loads(ln) for ln in f if ln.strip()]
+            traces[tag] = normalize(recs)
+        inside = sum(1 for s_ in sched.switches if s_[1] in ("_utils.py", "jsonl.py", "orchestrator.py", "delta_collector.py", "model.py"))
+        out = {"traces": traces, "outcomes": outcomes, "sched_outcome": outcome, "task_errors": errs, "switches": len(sched.switches),
+               "switches_inside": inside, "steps": sched.steps}
+    finally:
+        w.close()
+    print("RESULT " + json.dumps(out, default=repr))
+    return 0
+
+
+def _concurrent_process(sc: dict, seed: int, detail: str) -> dict:
+    p = subprocess.run([sys.executable, "-m", "svsim.props.c10", "child_concurrent"],
+                       input=json.dumps({"sc": {"A": sc["A"]}, "seed": seed, "detail": detail, "conc": sc["concurrent"]}),
+                       env=dict(os.environ), capture_output=True, text=True)
+    for line in p.stdout.splitlines():
+        if line.startswith("RESULT "):
+            return json.loads(line[7:])
+    raise RuntimeError(f"fresh interpreter (concurrent first runs) failed: {p.stdout[-800:]} {p.stderr[-1500:]}")
 
 
 def _other_process(sc: dict, seed: int, detail: str) -> dict:
@@ -265,6 +334,25 @@ def execute(sc: dict, seed: int) -> dict:
             if d:
                 viols.append(oracles.V("reproducible", f"trace_differs_across_processes:{_field_of(d)}",
                                        f"op {i0} ({how0}) vs a fresh interpreter with PYTHONHASHSEED={sc['hashseed']}, detail={detail}: {d}"))
+        if sc.get("concurrent") and a_traced:
+            detail = sorted(a_traced)[0]
+            cr = _concurrent_process(sc, seed, detail)
+            stats["probe.concurrent_first_traced_runs_in_fresh_interpreter"] = 1
+            stats["concurrent_switches_inside_trace_code"] = cr["switches_inside"]
+            if cr["sched_outcome"] != "completed" or cr["task_errors"]:
+                viols.append(oracles.V("concurrent", f"tasks:{cr['sched_outcome']}", f"two concurrent traced runs: {cr['sched_outcome']} {cr['task_errors'][:2]}"))
+            else:
+                seq = cr["traces"]["conc_seq"]
+                for tag in ("conc_t1", "conc_t2"):
+                    d = _first_diff(seq, cr["traces"][tag])
+                    if d:
+                        viols.append(oracles.V("reproducible", f"trace_of_concurrent_first_run_differs:{_field_of(d)}",
+                                               f"fresh interpreter, two caller threads run A concurrently (detail={detail}); trace of {tag} vs a later "
+                                               f"sequential run: {d}"))
+                        break
+                    if harness.canon(cr["outcomes"][tag]) != harness.canon(cr["outcomes"]["conc_seq"]):
+                        viols.append(oracles.V("outcome", "concurrent_run_outcome_differs", f"{tag}: {cr['outcomes'][tag]} vs {cr['outcomes']['conc_seq']}"))
+                        break
         seen, uniq = set(), []
         for v in viols:
             kk = (v["clause"], v["key"])
@@ -288,6 +376,8 @@ def shrink_candidates(sc: dict):
         yield dict(sc, hashseed=None)
     if sc.get("cli_pair"):
         yield dict(sc, cli_pair=None)
+    if sc.get("concurrent"):
+        yield dict(sc, concurrent=None)
     ops = sc["ops"]
     for i in reversed(range(len(ops))):
         if len(ops) <= 2:
@@ -313,3 +403,5 @@ def shrink_candidates(sc: dict):
 if __name__ == "__main__":
     if len(sys.argv) > 1 and sys.argv[1] == "child":
         sys.exit(_child_main())
+    if len(sys.argv) > 1 and sys.argv[1] == "child_concurrent":
+        sys.exit(_child_concurrent())
